@@ -53,6 +53,7 @@ func analysisCheck(cfg *core.Config, oracle, evalCounter, rule string, assumptio
 		}
 	}
 	progs = append(progs, pinnedPrograms(cfg.Prop)...)
+	progs = append(progs, staticPrograms(cfg.Prop)...)
 	pl := NewPipeline(cfg, rep, progs, true)
 	defer pl.Close()
 	analysed := 0
